@@ -68,12 +68,17 @@ func c04eom(p *Program, r *Report, rule string) {
 	if fn == nil {
 		return
 	}
+	c04stale(p, r, rule+".stale", fn)
 	p.runTable(r, tableSpec{
 		Rule: rule, Fn: fn, Inline: p.inlineSet("msgReader.discardRest"), Unroll: 1,
 		Atoms: []Atom{boolAtom("msgReader.fin"), intAtom("msgReader.payloadLength", candidates(intConstsCompared(fn), 0, 1, 7)), boolAtom("msgReader.flate")},
 		Decide: func(v Valuation) func(string, AV) (bool, bool) {
 			return func(key string, cond AV) (bool, bool) {
 				if strings.HasPrefix(key, "(call:mu.lock@") {
+					return true, true
+				}
+				// the rows are about the message the handle belongs to; a stale handle is decided by C04.eom.stale
+				if k := stripSites(key); k == "(param:gen == msgReader.gen)" || k == "(msgReader.gen == param:gen)" {
 					return true, true
 				}
 				return false, false
@@ -189,6 +194,75 @@ func c04eom(p *Program, r *Report, rule string) {
 		}
 		return false, "returns count " + n.Key()
 	})
+}
+
+// c04stale: a handle whose message is over (a later Reader call started the next one, which it does only once this one
+// was read to its end: C03.seq.reader) gets io.EOF and nothing else: no byte of the next message, no state touched. The
+// generation is compared under the read lock, and msgReader.gen is advanced only by reset (F38).
+func c04stale(p *Program, r *Report, rule string, fn *ssa.Function) {
+	gen := p.FieldOpt("msgReader.gen")
+	if gen == nil {
+		r.Check(rule, "msgReader", "generation counter", "-", false, "msgReader counts the messages started, so that a reader handle can tell whether its message is still the current one", "no field msgReader.gen")
+		return
+	}
+	p.forAllPaths(r, rule, fn, "stale handle gets io.EOF and nothing else", Opts{Unroll: 1}, "msgReader.Read compares the handle's generation with msgReader.gen after taking the read lock and before reading; on a mismatch it returns (0, io.EOF) without reading or writing anything", func(pa *Path) (bool, string) {
+		lk := pa.Calls("mu.lock")
+		if len(lk) == 0 {
+			return false, "no read lock"
+		}
+		// the lock is waited for under the handle's own context: the shared msgReader.ctx is replaced by the next Reader
+		// call under the lock, reading it before the lock is taken is a data race
+		if argKey(lk[0], 1) != "param:ctx" {
+			return false, "waits for the read lock under " + argKey(lk[0], 1) + " (read outside the lock)"
+		}
+		if ok, known := decidedLike(pa, lk[0].Res.Key()+" == nil"); known && !ok {
+			return true, ""
+		}
+		same, known := decidedLike(pa, "param:gen == msgReader.gen")
+		if !known {
+			same, known = decidedLike(pa, "msgReader.gen == param:gen")
+		}
+		rd := pa.Calls("limitReader.Read")
+		if !known {
+			if len(rd) > 0 {
+				return false, "reads without comparing the generation"
+			}
+			return true, ""
+		}
+		if same {
+			return true, ""
+		}
+		if len(rd) > 0 || len(pa.Calls("msgReader.read")) > 0 {
+			return false, "a stale handle reads from the current message"
+		}
+		for _, e := range pa.Events {
+			if e.Kind == "store" && strings.HasPrefix(e.AddrK, "msgReader.") {
+				return false, "a stale handle writes " + e.AddrK
+			}
+		}
+		if pa.End == "return" {
+			if z, ok := avInt(pa.Ret[0]); !ok || z != 0 || pa.Ret[1].Key() != "G:io.EOF" {
+				return false, "a stale handle gets " + pa.Ret[0].Key() + ", " + pa.Ret[1].Key()
+			}
+		}
+		return true, ""
+	})
+	advanced := 0
+	for _, fa := range p.FieldAccesses(gen) {
+		if fa.Write || fa.Addr {
+			fname := p.FuncName(fa.Fn)
+			r.Check(rule, fname, "store msgReader.gen", p.InstrPos(fa.Instr), fname == "msgReader.reset", "the generation is advanced only by msgReader.reset (one new message)", fname)
+			if fname == "msgReader.reset" && fa.Store != nil {
+				// gen = gen + 1
+				if b, ok := fa.Store.Val.(*ssa.BinOp); ok && b.Op == token.ADD {
+					if c, ok := b.Y.(*ssa.Const); ok && c.Int64() == 1 {
+						advanced++
+					}
+				}
+			}
+		}
+	}
+	r.Check(rule, "msgReader.reset", "advances msgReader.gen", "-", advanced == 1, "every new message advances the generation by one: handles of earlier messages no longer match", fmt.Sprintf("%d increment(s) in reset", advanced))
 }
 
 func c04unmask(p *Program, r *Report, rule string) {
